@@ -16,6 +16,7 @@ import (
 	"os"
 	osexec "os/exec"
 	"strings"
+	"time"
 
 	"github.com/inbucket/inbucket/v3/pkg/verifhook"
 	"verifharness/cmd/c11/fsd"
@@ -23,13 +24,16 @@ import (
 )
 
 type segOut struct {
-	Start   string   `json:"start"` // state/visit seen by the fresh process
-	Res     []string `json:"res"`
-	Cks     []string `json:"cks"`  // state/visit after each in-process reopen
-	Same    []string `json:"same"` // 1 when the state before a reopen equals the state after
-	End     string   `json:"end"`
-	Tab     [][]string
-	Retries int
+	Start    string   `json:"start"` // state/visit seen by the fresh process
+	Res      []string `json:"res"`
+	Cks      []string `json:"cks"`  // state/visit after each in-process reopen
+	Same     []string `json:"same"` // 1 when the state before a reopen equals the state after
+	End      string   `json:"end"`
+	Tab      [][]string
+	Retries  int
+	Reissued []string
+	Live     string // "1", or the index of the first operation after which a fresh store saw another state than the live one
+	Cap      int
 }
 
 // runSegment runs ops (no X inside) on dir in this process.
@@ -43,9 +47,13 @@ func runSegment(dir string, cap int, tab [][]string, ops []fsd.Op) segOut {
 	defer verifhook.Set(nil)
 	s := fsd.Open(dir, cap, tab)
 	out.Start = s.State() + "/" + s.Visit()
-	for _, o := range ops {
-		if o.Kind == "R" {
+	out.Live = "1"
+	for i, o := range ops {
+		if o.Kind == "R" || o.Kind == "C" {
 			before := s.State() + "/" + s.Visit()
+			if o.Kind == "C" {
+				s.Cap = o.Rep
+			}
 			s.Reopen()
 			after := s.State() + "/" + s.Visit()
 			out.Res = append(out.Res, "-")
@@ -54,9 +62,18 @@ func runSegment(dir string, cap int, tab [][]string, ops []fsd.Op) segOut {
 			continue
 		}
 		out.Res = append(out.Res, s.Do(o))
+		// what a freshly constructed store reads from the disk = what the live store object answers
+		if out.Live == "1" {
+			fresh := fsd.Open(dir, s.Cap, fsd.CopyTab(s.Tab))
+			if fresh.State()+"/"+fresh.Visit() != s.State()+"/"+s.Visit() {
+				out.Live = fmt.Sprintf("0@%d", i)
+			}
+		}
 	}
 	out.End = s.State() + "/" + s.Visit()
 	out.Tab = s.Tab
+	out.Reissued = s.Reissued
+	out.Cap = s.Cap
 	return out
 }
 
@@ -74,21 +91,19 @@ func segmentMain() {
 	w.Flush()
 }
 
-func exec(kind string, in []string) []string {
-	if kind != "hist" {
-		return []string{"UNKNOWN-KIND"}
-	}
-	if !fsd.CheckPool(in[1]) {
-		return []string{"POOL-DIFFERS"}
-	}
-	cap := vh.AtoI(in[0])
-	dir := fsd.Scratch("c10")
-	defer os.RemoveAll(dir)
-	// cut at X
+type histOut struct {
+	res, cks, same, reissued []string
+	fin, live                string
+	retries                  int
+}
+
+// runHist runs a history on dir; segments (cut at X) run in their own processes when there is more
+// than one, or always when forceProc is set.
+func runHist(dir string, cap int, opsField string, forceProc bool) (h histOut, errOut []string) {
 	var segs [][]string
 	cur := []string{}
-	if in[2] != "-" {
-		for _, o := range strings.Split(in[2], ",") {
+	if opsField != "-" {
+		for _, o := range strings.Split(opsField, ",") {
 			if o == "X" {
 				segs = append(segs, cur)
 				cur = []string{}
@@ -98,18 +113,16 @@ func exec(kind string, in []string) []string {
 		}
 	}
 	segs = append(segs, cur)
-	var res, cks, same []string
 	var tab [][]string
-	retries := 0
 	prevEnd := ""
-	fin := ""
+	h.live = "1"
 	for i, sg := range segs {
 		opsf := "-"
 		if len(sg) > 0 {
 			opsf = strings.Join(sg, ",")
 		}
 		var out segOut
-		if len(segs) == 1 {
+		if len(segs) == 1 && !forceProc {
 			out = runSegment(dir, cap, tab, fsd.ParseOps(opsf))
 		} else {
 			tabf := dir + ".tab.json"
@@ -120,32 +133,80 @@ func exec(kind string, in []string) []string {
 			ob, err := cmd.Output()
 			_ = os.Remove(tabf)
 			if err != nil {
-				return []string{"SEGMENT-PROCESS-FAILED", vh.HS(err.Error())}
+				return h, []string{"SEGMENT-PROCESS-FAILED", vh.HS(err.Error())}
 			}
 			if err := json.Unmarshal(ob, &out); err != nil {
-				return []string{"SEGMENT-OUTPUT-UNREADABLE"}
+				return h, []string{"SEGMENT-OUTPUT-UNREADABLE"}
 			}
 		}
 		if i > 0 {
-			res = append(res, "-")
-			cks = append(cks, out.Start)
-			same = append(same, vh.B(prevEnd == out.Start))
+			h.res = append(h.res, "-")
+			h.cks = append(h.cks, out.Start)
+			h.same = append(h.same, vh.B(prevEnd == out.Start))
 		}
-		res = append(res, out.Res...)
-		cks = append(cks, out.Cks...)
-		same = append(same, out.Same...)
+		h.res = append(h.res, out.Res...)
+		h.cks = append(h.cks, out.Cks...)
+		h.same = append(h.same, out.Same...)
+		h.reissued = append(h.reissued, out.Reissued...)
+		if h.live == "1" && out.Live != "1" {
+			h.live = fmt.Sprintf("seg%d:%s", i, out.Live)
+		}
 		tab = out.Tab
-		retries += out.Retries
+		cap = out.Cap
+		h.retries += out.Retries
 		prevEnd = out.End
-		fin = out.End
+		h.fin = out.End
 	}
-	j := func(xs []string, sep string) string {
-		if len(xs) == 0 {
-			return "none"
+	return h, nil
+}
+
+func jn(xs []string, sep string) string {
+	if len(xs) == 0 {
+		return "none"
+	}
+	return strings.Join(xs, sep)
+}
+
+// the history of the open finding K-C10-id-reissued-after-restart
+const reissueOps = "a.0.w1.1600000001.6f6c64206d61696c0d0a.1,r.0.0,X,a.0.w2.1600000002.6e6577206d61696c0d0a.2"
+
+func exec(kind string, in []string) []string {
+	if !fsd.CheckPool(in[1]) {
+		return []string{"POOL-DIFFERS"}
+	}
+	cap := vh.AtoI(in[0])
+	switch kind {
+	case "hist":
+		dir := fsd.Scratch("c10")
+		defer os.RemoveAll(dir)
+		h, e := runHist(dir, cap, in[2], false)
+		if e != nil {
+			return e
 		}
-		return strings.Join(xs, sep)
+		return []string{"res=" + jn(h.res, ","), "cks=" + jn(h.cks, "^"), "same=" + jn(h.same, ","), "fin=" + h.fin,
+			"live=" + h.live, fmt.Sprintf("retries=%d", h.retries), "reissued=" + jn(h.reissued, ",")}
+	case "reissue":
+		// deliver, remove, REAL restart, deliver — both processes within one wall-clock second (the id
+		// is second + counter, the counter restarts at 0000): retried when the second rolled over
+		var h histOut
+		for attempt := 0; attempt < 8; attempt++ {
+			for time.Now().Nanosecond() > 550_000_000 {
+				time.Sleep(10 * time.Millisecond)
+			}
+			dir := fsd.Scratch("c10r")
+			var e []string
+			h, e = runHist(dir, cap, reissueOps, true)
+			os.RemoveAll(dir)
+			if e != nil {
+				return e
+			}
+			if len(h.reissued) > 0 {
+				break
+			}
+		}
+		return []string{"res=" + jn(h.res, ","), "fin=" + h.fin, "reissued=" + jn(h.reissued, ",")}
 	}
-	return []string{"res=" + j(res, ","), "cks=" + j(cks, "^"), "same=" + j(same, ","), "fin=" + fin, fmt.Sprintf("retries=%d", retries)}
+	return []string{"UNKNOWN-KIND"}
 }
 
 func main() {
